@@ -16,6 +16,7 @@ CFG = {
         "Swat4.C16.discover_order",
         "Swat4.C16.submission_order",
         "Swat4.C16.retry_order",
+        "Swat4.C16.runChoices_steps",
         "Swat4.C16.report_backed",
         "Swat4.C16.addServer_backed",
         "Swat4.C16.probe_backed",
